@@ -326,7 +326,30 @@ func genRouterSrc(repo string) (string, error) {
 		}
 		return true
 	})
+	// GetRouteFromEntries: lock, deferred unlock, ONE loop over vh.routes returning the first Match, return nil
+	_, vf, err := ParseGoFile(repo, "pkg/router/virtualhost.go")
+	if err != nil {
+		return "", err
+	}
+	linear := false
+	if gd := FindFunc(vf, "VirtualHostImpl", "GetRouteFromEntries"); gd != nil && gd.Body != nil && len(gd.Body.List) == 4 {
+		_, isLock := gd.Body.List[0].(*ast.ExprStmt)
+		_, isDefer := gd.Body.List[1].(*ast.DeferStmt)
+		rs, isRange := gd.Body.List[2].(*ast.RangeStmt)
+		ret, isRet := gd.Body.List[3].(*ast.ReturnStmt)
+		if isLock && isDefer && isRange && isRet && selName(rs.X) == "vh.routes" && len(rs.Body.List) == 1 &&
+			len(ret.Results) == 1 && selName(ret.Results[0]) == "nil" {
+			if is, ok := rs.Body.List[0].(*ast.IfStmt); ok && is.Init != nil && is.Else == nil && len(is.Body.List) == 1 {
+				if as, ok := is.Init.(*ast.AssignStmt); ok && len(as.Rhs) == 1 && strings.HasSuffix(selName(as.Rhs[0]), ".Match()") {
+					if _, ok := is.Body.List[0].(*ast.ReturnStmt); ok {
+						linear = true
+					}
+				}
+			}
+		}
+	}
 	var b strings.Builder
+	fmt.Fprintf(&b, "Definition route_scan_is_linear := %v.\n", linear)
 	fmt.Fprintf(&b, "Definition host_fallback_default := %v.\n", fallback == 1)
 	fmt.Fprintf(&b, "Definition RouterSrc_translator_ok := %v.\n", fallback <= 1 && returnsNil == 1 && lowers == 1)
 	return b.String(), nil
